@@ -356,10 +356,20 @@ class SeriesWorld(World):
             if step > 0:
                 return {"k": "span", "a": t, "b": t + (n - 1) * step + rng.choice([0, 0, 1]) * (step - 1), "step": step}
             return {"k": "span", "a": t + n - 1, "b": t, "step": -1}
-        if r < 0.9 or not allow_all:
+        if r < 0.88 or not allow_all:
             n = rng.randint(1, max_n)
             ts = rng.sample(range(t - 3, t + 6), n)
             return {"k": "list", "ts": ts}
+        if r < 0.95 and m.lo is not None and m.n > 0:
+            # context-dependent periods: open-ended spans and start/end arithmetic, resolved against the RECEIVER
+            q = rng.random()
+            if q < 0.35:
+                return {"k": "ctx", "a": None, "b": ["abs", rng.randint(m.lo, m.hi + 2)]}
+            if q < 0.7:
+                return {"k": "ctx", "a": ["abs", rng.randint(m.lo - 2, m.hi)], "b": None}
+            a = [rng.choice(["start", "end"]), rng.randint(-2, 2)]
+            b = ["end", a[1] + rng.randint(0, 3)] if a[0] == "end" else [rng.choice(["start", "end"]), rng.randint(-1, 3)]
+            return {"k": "ctx", "a": a, "b": b}
         return {"k": "all"}
 
     @staticmethod
@@ -374,6 +384,15 @@ class SeriesWorld(World):
             return list(d["ts"])
         if k == "all":
             return list(m.rows())
+        if k == "ctx":
+            def res(e, default):
+                if e is None:
+                    return default
+                if e[0] == "abs":
+                    return e[1]
+                return (m.lo if e[0] == "start" else m.hi) + e[1]
+            a, b = res(d["a"], m.lo), res(d["b"], m.hi)
+            return list(range(a, b + 1))
         raise HarnessError(k)
 
     def dates_real(self, d, freq):
@@ -386,6 +405,15 @@ class SeriesWorld(World):
             return [P(freq, t) for t in d["ts"]]
         if k == "all":
             return ...
+        if k == "ctx":
+            def end(e):
+                if e is None:
+                    return None
+                if e[0] == "abs":
+                    return P(freq, e[1])
+                base = ir.start if e[0] == "start" else ir.end
+                return base + e[1] if e[1] else base
+            return ir.Span(end(d["a"]), end(d["b"]))
         raise HarnessError(k)
 
     def _gen_variants(self, rng, nv):
@@ -903,6 +931,8 @@ class SeriesWorld(World):
             raise HarnessError(k)
         exp = sm.t_set(m, freq, ts, vids, value_at)
         exp.desc = m.desc
+        if a["dates"]["k"] == "ctx":
+            self.probes["contextual_periods_in_write"] += 1
         if m.lo is None:
             self.probes["write_into_empty"] += 1
         elif ts:
